@@ -321,7 +321,8 @@ class DataFormat(object):
         if name == KEY_ENCODING:
             try:
                 codecs.lookup(value)
-            except LookupError:
+            except (LookupError, UnicodeError, ValueError):
+                # NOTE: Names with a null character or lone surrogates fail with ValueError or UnicodeError.
                 raise errors.InterfaceError(
                     "value for data format property %s is %s but must be a valid encoding"
                     % (_compat.text_repr(KEY_ENCODING), _compat.text_repr(self.encoding)),
